@@ -58,9 +58,10 @@ class ShapeBuilder:
         self.n += 1
         return self._reg(A.Sym("str", f"STRING_LITERAL:{tag}{self.n}"))
 
-    def integer(self, tag="i"):
+    def integer(self, tag="i", huge=False):
+        """huge: an integer with more digits than the largest double has (abs() of it exceeds sys.float_info.max)."""
         self.n += 1
-        return self._reg(A.Sym("int", f"NON_NEG_INTEGER:{tag}{self.n}"))
+        return self._reg(A.Sym("int", f"NON_NEG_INTEGER{':HUGE' if huge else ''}:{tag}{self.n}"))
 
     def decimal(self, tag="f", overflow=False):
         """overflow: a decimal with more digits than a float holds (float() of it is inf); at most one per program."""
@@ -948,6 +949,19 @@ class Family:
         yield self.prog(("groups", [(("lit", b.string("g"), False), b.decimal("big", overflow=True)),
                                     (("lit", b.string("g"), False), b.integer("w"))]), True, ("a",),
                         "overflowing decimal as weight")
+        # an integer beyond the range of a float is still that integer
+        huge = lambda neg=False: ("lit", b.integer("huge", huge=True), neg)      # noqa: E731
+        yield self.prog(("if", [("cmp", "KW_EQ", x(), huge())], self.groups(1), ("else", self.groups(1))), True, ("a",),
+                        "integer beyond the float range as right operand")
+        yield self.prog(("if", [("cmp", "KW_LT", huge(True), x())], self.groups(1), None), True, ("a",),
+                        "negative integer beyond the float range as left operand")
+        yield self.prog(("if", [("cmp", "KW_IN", x(), ("tuple", [("lit", b.integer(), False), huge()]))], self.groups(1), None), True, ("a",),
+                        "integer beyond the float range as tuple member")
+        yield self.prog(("groups", [(huge(), b.integer("w")), (("lit", b.string("g"), False), b.integer("w"))]), True, ("a",),
+                        "integer beyond the float range as returned group")
+        yield self.prog(("groups", [(("lit", b.string("g"), False), b.integer("huge", huge=True)),
+                                    (("lit", b.string("g"), False), b.integer("w"))]), True, ("a",),
+                        "integer beyond the float range as weight")
 
     def header_variants(self):
         for salt in (True, False):
